@@ -31,7 +31,11 @@ pub fn run_sat(case: &Value, _seed: u64) -> Outcome {
     // chain 6: one upstream version, revisions whose order is not the order of their texts
     const CHAIN6: [&str; 6] = ["1.0-1~bpo12+1", "1.0-1", "1.0-2", "1.0-9", "1.0-10", "1.0-10+b1"];
     let chain6_ok = CHAIN6.windows(2).all(|w| w[0].parse::<Version>().ok() < w[1].parse::<Version>().ok());
-    for chain_id in 0..8 {
+    // chain 8: binary rebuilds (+bN) and security suffixes next to the version they extend (greater, never equal)
+    const CHAIN8: [&str; 6] = ["1.0-1~exp1", "1.0-1", "1.0-1+b1", "1.0-1+b2", "1.0-1+deb12u1", "1.0-2"];
+    let chain8_ok = CHAIN8.windows(2).all(|w| w[0].parse::<Version>().ok() < w[1].parse::<Version>().ok());
+    for chain_id in 0..9 {
+        if chain_id == 8 && !chain8_ok { o.d("chain8_not_ascending", "", String::new()); continue; }
         if chain_id == 6 && !chain6_ok { o.d("chain6_not_ascending", "", String::new()); continue; }
         if chain_id == 5 && !chain5_ok { o.d("chain5_not_ascending", "", String::new()); continue; }
         if chain_id == 4 && !chain4_ok { o.d("chain4_not_ascending", "", String::new()); continue; }
@@ -40,7 +44,7 @@ pub fn run_sat(case: &Value, _seed: u64) -> Outcome {
         // (chain 7: names with upper-case letters; an ABSENT package has a namesake in other letter case installed, at a
         //  version that would satisfy anything - names are compared exactly, so it stays absent)
         let names: HashMap<&str, &str> = if chain_id == 7 { [("p", "libFoo"), ("q", "R-base")].into_iter().collect() } else if chain_id == 3 { [("p", "libfoo"), ("q", "libfoo-dev")].into_iter().collect() } else { [("p", if chain == 0 { "libfoo2.0-dev" } else { "g++" }), ("q", if chain == 0 { "bar" } else { "x~y" })].into_iter().collect() };
-        let ver0 = |rank: u64| -> String { if chain_id == 4 { return CHAIN4[rank as usize].to_string(); } if chain_id == 5 { return CHAIN5[rank as usize].to_string(); } if chain_id == 6 { return CHAIN6[rank as usize].to_string(); } let v = VERS[chain][rank as usize]; if chain == 1 && rank >= 3 { format!("1:{}", v) } else { v.to_string() } };
+        let ver0 = |rank: u64| -> String { if chain_id == 4 { return CHAIN4[rank as usize].to_string(); } if chain_id == 5 { return CHAIN5[rank as usize].to_string(); } if chain_id == 6 { return CHAIN6[rank as usize].to_string(); } if chain_id == 8 { return CHAIN8[rank as usize].to_string(); } let v = VERS[chain][rank as usize]; if chain == 1 && rank >= 3 { format!("1:{}", v) } else { v.to_string() } };
         let ver = |rank: u64| -> String { if chain_id == 3 { format!("0:{}", ver0(rank)) } else { ver0(rank) } };
         let ver_inst = |rank: u64| -> String { if chain_id == 2 { format!("0:{}", ver0(rank)) } else { ver0(rank) } };
         // text of the field
@@ -155,6 +159,7 @@ pub fn run_lossy_rt(case: &Value, _seed: u64) -> Outcome {
     o.key = format!("{}", case["x"]);
     o.nontrivial = true;
     if case["sv"].as_bool() == Some(true) { return o; }
+    if crate::conc::hash64(&o.key) % 97 == 0 { super::rel::long_lists(&mut o, &feats); }
     for m in 0..super::nmaps().min(3) {
         let (_text, texts) = concretise_field(case, m);
         let items = expected_items(case, &texts);
